@@ -51,7 +51,7 @@ RULE = {
 }
 
 PROID = 'foo'
-APP = 'foo.bar'
+APP = 'foo.bar-2'      # a legal app name with an all-digit dash component (instance names are <app>#<10 digits>)
 GROUP = 'g'
 MAX_STEPS = 200      # fuel for 'run'
 
@@ -64,8 +64,21 @@ def rsrc_num(inst, u):
     return inst * 1000 + u
 
 
+# host names in a prefix relation (host1 / host10 / host100): node data is compared by host NAME
+HOST_NAMES = {1: 'host1', 2: 'host10', 3: 'host100'}
+HOST_IDS = {v: k for k, v in HOST_NAMES.items()}
+
+
 def host_name(h):
-    return 'host%d' % h
+    return HOST_NAMES.get(h, 'host%d' % h)
+
+
+def host_id(name):
+    if name in HOST_IDS:
+        return HOST_IDS[name]
+    if name.startswith('host') and name[4:].isdigit() and int(name[4:]) not in HOST_NAMES:
+        return int(name[4:])
+    return None
 
 
 def encode_payload(data):
@@ -78,17 +91,17 @@ def encode_payload(data):
             d = json.loads(s)
             h = d.get('host', '')
             a = d.get('app', '')
-            if h.startswith('host') and h[4:].isdigit() and '#' in a:
-                return (int(h[4:]), int(a.rpartition('#')[2]))
+            if host_id(h) is not None and '#' in a:
+                return (host_id(h), int(a.rpartition('#')[2]))
         except ValueError:
             pass
         return (0, 999)
     head, sep, tail = s.partition(':')
-    if head.startswith('host') and head[4:].isdigit():
+    if host_id(head) is not None:
         if not sep:
-            return (int(head[4:]), 0)
+            return (host_id(head), 0)
         if tail.isdigit():
-            return (int(head[4:]), int(tail))
+            return (host_id(head), int(tail))
     return (0, 999)
 
 
@@ -378,7 +391,7 @@ def run_impl(case, pid):
                     # registered for a container of ANOTHER INSTANCE (only identity-group paths are
                     # shared between instances) is reported under its own clause
                     other_inst = (owner_was is not None and
-                                  owner_was[1].split('-')[1] != req['rsrc'].split('-')[1])
+                                  owner_was[1].rsplit('-', 2)[1] != req['rsrc'].rsplit('-', 2)[1])
                     run.hits.append(fw.Hit(
                         clause='delete-identity-of-other-instance' if other_inst else 'delete-other-container',
                         call_site=site,
@@ -415,7 +428,7 @@ def run_impl(case, pid):
         return 'zk=%s %s' % (zk, ' '.join(svs))
 
     def _rnum(rid):
-        parts = rid.split('-')
+        parts = rid.rsplit('-', 2)
         return rsrc_num(int(parts[1]), int(parts[2]))
 
     def emit(line):
@@ -526,7 +539,10 @@ def run_impl(case, pid):
         line = 'start %d create %d %d %s' % (proc.idx, rsrc_num(inst, u), inst, enc)
         if not proc.busy:
             created_data[(proc.idx, rid)] = (inst, u, data)
-            assert appcfg.app_name(rid) == '%s#%010d' % (APP, inst)
+            if appcfg.app_name(rid) != '%s#%010d' % (APP, inst):
+                run.hits.append(fw.Hit(clause='instance-name', call_site='appcfg.app_name',
+                                       detail='container %s is taken for instance %s, not %s#%010d' % (
+                                           rid, appcfg.app_name(rid), APP, inst)))
             start(proc, {'kind': 'create', 'site': 'on_create_request', 'rsrc': rid, 'inst': inst},
                   lambda: proc.svc.on_create_request(rid, json.loads(json.dumps(data))))
         emit(line)
